@@ -10,6 +10,11 @@ CHECKS = {
         note="Kani 0.68/CBMC 6.11/CaDiCaL on dev-profile MIR; stub ahash::RandomState::new; arena CHUNK_SIZE scaled 128->4 in the scratch copy; ids of the watched clause are concrete, polarities/assignments/levels symbolic; Requires clauses and everything on hash containers outside the claim.",
         technique="bounded model checking of the compiled Rust (Kani -> CBMC -> SAT), symbolic inputs, cover-witnessed, vacuity twins",
         ref="DESIGN.md 3/C01"),
+    "C19": dict(
+        text="Bounded model checking (Kani/CBMC) of the real Mapping<NameId,u32> against an association-list model written in the harness: every K-tuple of keys over the alphabet {0,1,3,4,5,9} (K=2 quick, 3 thorough; chunk constant scaled to 4 so the alphabet spans three chunks) x {pre-sized, growing}; operation kinds (insert/unset) and values are symbolic; insert/unset return values, get, len, is_empty after every step and iter() (ascending, each stored pair once, then None) are asserted. Serde round trip: see level_note.",
+        note="Kani 0.68/CBMC 6.11; VALUES_PER_CHUNK scaled 128->4 in the scratch copy (real constant does not finish); keys enumerated (symbolic keys do not finish), values/kinds symbolic; instantiation Mapping<NameId,u32>; public API only.",
+        technique="bounded model checking of the compiled Rust (Kani -> CBMC -> SAT): differential harness vs. reference model, symbolic operation kinds and values, enumerated key tuples",
+        ref="DESIGN.md 3/C19"),
 }
 
 NA = {
